@@ -1,8 +1,9 @@
 (* The persistence protocol at the granularity of primitive file-system effects, and recovery
    from the directory as it is after any prefix of them (process death at any instant).
    FileBlobWriter::store = create temp, write, sync, rename; ::delete = remove
-   (src/disk_store/file_writer.rs); Storage::recover lists *every* file of wal/
-   (src/disk_store/storage.rs).  Executable definitions only.
+   (src/disk_store/file_writer.rs); Storage::recover lists wal/, keeps the files called
+   <u64>.wal as segments and removes every other file (src/disk_store/storage.rs, since commit
+   4e8886f).  Executable definitions only.
 
    What is kept of the effects is what a later recovery can tell apart:
    - the temp file of a partition file (tables/<t>/<id>_<key>..INCOMPLETE) and of the catalogue
@@ -10,7 +11,8 @@
      the directory, as far as recovery goes, where it was: only the rename is an effect here;
    - the temp file of a log segment (wal/<id>..INCOMPLETE) lives in the directory recovery lists:
      created or partially written it is [TmpPartial], completely written [TmpWhole]; sync changes
-     nothing a reader sees;
+     nothing a reader sees.  Recovery does not read it, but it removes it, and that removal is one
+     of recovery's own effects;
    - power-loss reordering is not modelled (effects reach the disk in program order).
    A crash state is a [cdisk]: the durable fields of a [db] (t_files, t_meta of every table,
    d_cursor, d_wal) plus the log temp file; the volatile fields are ignored by recovery. *)
@@ -37,23 +39,20 @@ Definition with_cursor (s : db) (k : N) : db :=
   {| tabs := tabs s; next_wal := next_wal s; earliest := earliest s; wal_size := wal_size s;
      d_cursor := Some k; d_wal := d_wal s; acked := acked s |}.
 
-Inductive routcome :=
-| RFail                 (* Storage::recover cannot load a file of wal/ (envelope check fails): since
-                           commit b430922 it panics with "Failed to load WAL segment <path>", before
-                           that the loader thread panicked and recover waited forever on
-                           rx.iter().take(n) - either way LocustDB::new does not return a database:
-                           finding F8 *)
-| ROut (r : res db).
+(* InnerLocustDB::new on the directory [d].  The log temp file is not a segment: it is not read.
 
-(* InnerLocustDB::new on the directory [d] *)
-Definition recover_c (c : cfg) (d : cdisk) : routcome :=
-  match cd_tmp d with
-  | Some TmpPartial => RFail
-  | Some (TmpWhole id sg) =>
-      (* a completely written temp file deserialises like a segment and is treated as one *)
-      ROut (recover c (with_wal (cd_db d) (d_wal (cd_db d) ++ [(id, sg)])))
-  | None => ROut (recover c (cd_db d))
-  end.
+   History (finding F8, fixed by 4e8886f).  Until 4e8886f Storage::recover loaded every file of
+   wal/: a partially written temp file failed the envelope check and LocustDB::new did not return
+   a database (it waited forever on rx.iter().take(n) until b430922, panicked with "Failed to load
+   WAL segment <path>" after), and a completely written one was replayed like a segment.  The
+   model then was
+     recover_c c d = match cd_tmp d with
+                     | Some TmpPartial => RFail
+                     | Some (TmpWhole id sg) => ROut (recover c (with_wal (cd_db d) (d_wal (cd_db d) ++ [(id, sg)])))
+                     | None => ROut (recover c (cd_db d)) end
+   and the theorems were C09_ingest_cuts "recovery fails exactly at cut 1" and
+   C09_recoverable_refuted. *)
+Definition recover_c (c : cfg) (d : cdisk) : res db := recover c (cd_db d).
 
 (* ---------------------------------------------------------------------------------------------- *)
 (* effects *)
@@ -62,6 +61,7 @@ Inductive eff :=
 | EWalTmpCreate (id : N)
 | EWalTmpWrite (id : N) (sg : segment)
 | EWalRename (id : N) (sg : segment)
+| EWalTmpRemove                           (* recovery's removal of a leftover wal/<id>..INCOMPLETE *)
 | EPartStore (n : name) (id : N) (rows : list row)
 | EMetaStore (cursor : N) (metas : list (name * list pmeta))
 | EPartRemove (n : name) (id : N)
@@ -89,6 +89,7 @@ Definition apply_eff (d : cdisk) (e : eff) : cdisk :=
   | EWalTmpCreate _ => {| cd_db := s; cd_tmp := Some TmpPartial |}
   | EWalTmpWrite id sg => {| cd_db := s; cd_tmp := Some (TmpWhole id sg) |}
   | EWalRename id sg => {| cd_db := with_wal s (d_wal s ++ [(id, sg)]); cd_tmp := None |}
+  | EWalTmpRemove => {| cd_db := s; cd_tmp := None |}
   | EPartStore n id rows =>
       match lookup n (tabs s) with
       | Some t => {| cd_db := with_tabs s (upd n (set_tfiles t (store_file id rows (t_files t))) (tabs s));
@@ -148,15 +149,19 @@ Definition flush_effects (s : db) (l1 : list (name * tstate)) : list eff :=
   part_stores l1 ++ [EMetaStore (next_wal s) (new_metas l1)] ++ part_removes l1
   ++ wal_removes (earliest s) (next_wal s).
 
-(* recovery's own effects: the removal of the segments below the cursor *)
+(* recovery's own effects: the removal of the segments below the cursor ... *)
 Definition recover_effects (s : db) : list eff :=
   let cursor := match d_cursor s with Some k => k | None => 0 end in
   map (fun x => EWalRemove (fst x)) (filter (fun x => fst x <? cursor) (d_wal s)).
 
+(* ... preceded, on a directory a crash left behind, by the removal of the log temp file *)
+Definition recover_effects_c (d : cdisk) : list eff :=
+  match cd_tmp d with Some _ => [EWalTmpRemove] | None => [] end ++ recover_effects (cd_db d).
+
 (* classification used by the ordering statement *)
 Definition is_part_store (e : eff) : bool := match e with EPartStore _ _ _ => true | _ => false end.
 Definition is_remove (e : eff) : bool :=
-  match e with EPartRemove _ _ => true | EWalRemove _ => true | _ => false end.
+  match e with EPartRemove _ _ => true | EWalRemove _ => true | EWalTmpRemove => true | _ => false end.
 
 (* ---------------------------------------------------------------------------------------------- *)
 (* the effects of a whole history (for the effect-trace correspondence) *)
